@@ -244,19 +244,20 @@ theorem c03_fd_quiet (k : Kind) (as : List Act) (a : Act) (c' : Conn) :
   intro c h1 h2 hs
   have h : LI c := li_reach k as
   obtain ⟨_, hfd, hdp, _, _⟩ := h.doneOk h1 h2
+  have hsec := h.phase1a
   cases a <;> simp only [step] at hs <;> split at hs <;> cases hs <;>
     simp only [addCheck, addP, addOpen, addTable, addReg, sessOpen, udpListen, dialStart, dialStartFail, dialNow,
       armDial, dialed, flip, teardown, timerW, userOp, h1, h2, hfd] <;> (repeat' split) <;> simp_all
 
 /-- C03 fd table: a conn whose teardown is complete is not in the fd table (so the poller never dispatches an event
-    to it, and `Stop` does not close it again) — except inside `addConn` between its table statement and its
-    registration statement, when the conn was closed from inside its open notification; the registration then fails
-    and takes it out again. -/
+    to it, `Stop` does not close it again, and the table entry of its descriptor NUMBER — which the kernel may have
+    handed to another conn meanwhile — is never written by it again: `addConn` tests the flag, stores and registers in
+    one critical section). -/
 theorem c03_table (k : Kind) (as : List Act) :
     let c := run (mk k) as
-    c.closed = true → c.td = none → c.add ≠ 4 → c.inTable = false := by
-  intro c h1 h2 h3
-  exact (((li_reach k as).doneOk h1 h2).2.2.2.2) h3
+    c.closed = true → c.td = none → c.inTable = false := by
+  intro c h1 h2
+  exact ((li_reach k as).doneOk h1 h2).2.2.2.2
 
 /-- the kernel decides once: after `kconnect r` no step changes the verdict -/
 theorem kres_stable (c c' : Conn) (a : Act) (r : Option Err) (h : LI c) (hk : c.kres = some r) (hs : step c a = some c') :
@@ -322,9 +323,10 @@ example : let c := run (mk .add) [.addCheck, .addP, .addOpen, .addTable, .addReg
 example : let c := run (mk .add) [.flip .nil true, .teardown, .addCheck, .addP, .addOpen]
     c.add = 6 ∧ c.opens = 0 ∧ c.closeN = 0 ∧ c.wg = 0 ∧ c.raced = false := by decide
 
-/-- `Close` from inside the open notification: `addConn` carries on, the registration fails on the closed descriptor -/
+/-- `Close` from inside the open notification: `addConn` is refused after it, table and epoll are not touched (the only
+    syscall on the descriptor is its close) -/
 example : let c := run (mk .acc) [.addCheck, .addP, .addOpen, .flip .nil true, .teardown, .addTable, .addReg]
-    c.closeN = 1 ∧ c.opens = 1 ∧ c.inTable = false ∧ c.reg = false ∧ c.wg = 0 := by decide
+    c.closeN = 1 ∧ c.opens = 1 ∧ c.inTable = false ∧ c.reg = false ∧ c.wg = 0 ∧ c.log = 1 := by decide
 
 /-- inside `addConn`'s critical section nobody flips the flag -/
 example : step (run (mk .add) [.addCheck]) (.flip .nil true) = none := by decide
